@@ -55,7 +55,7 @@ def def_block(text, docgen, ind="  "):
     return lines
 
 
-def gen_iface(rng, name, features, docgen, nfuncs, max_depth, with_resource, typedefs=3):
+def gen_iface(rng, name, features, docgen, nfuncs, max_depth, with_resource, typedefs=3, direct_result=False):
     g = witgen.Gen(rng, max_depth=max_depth, features=(set(features) & {"map", "flist", "future", "stream", "errctx", "resource", "bigflags"}) | {"_"})
     if not with_resource:
         g.features = g.features - {"resource"}
@@ -68,6 +68,14 @@ def gen_iface(rng, name, features, docgen, nfuncs, max_depth, with_resource, typ
         res = f" -> {g.ty(rng.choice([0, 1]), False)}" if rng.random() < 0.8 else ""
         a = "async " if "async" in features and rng.random() < 0.25 else ""
         funcs.append(f"  f{i}: {a}func({params}){res};")
+    if direct_result:
+        # a function whose result is DIRECTLY a result without error payload (`result<T>` / bare `result`):
+        # the flattened-return special cases of the backends (e.g. C's Scalar::ResultBool)
+        r = rng.random()
+        res = "result" if r < 0.35 else f"result<{g.ty(rng.choice([1, 2, 3]), False)}>" if r < 0.85 else f"result<_, {g.ty(2, False)}>"
+        p = "" if rng.random() < 0.5 else f"x: {g.ty(2, True)}"
+        funcs.append(f"  fr: func({p}) -> {res};")
+        g.count("direct-result")
     # named aliases of anonymous types: every `type_*` callback of define_type
     aliases = []
     for i in range(typedefs):
@@ -118,7 +126,7 @@ def gen_iface(rng, name, features, docgen, nfuncs, max_depth, with_resource, typ
     return blocks, g.stats, names
 
 
-def gen_world2(rng, features=None, docgen=None, max_ifaces=3, nfuncs=4, max_depth=3):
+def gen_world2(rng, features=None, docgen=None, max_ifaces=3, nfuncs=4, max_depth=3, direct_result=False):
     features = ALL_FEATURES if features is None else set(features)
     blocks = [["package t:t;"]]
     stats = {}
@@ -126,7 +134,7 @@ def gen_world2(rng, features=None, docgen=None, max_ifaces=3, nfuncs=4, max_dept
     ifaces = []
     for k in range(n):
         b, st, names = gen_iface(rng, f"i{k}", features, docgen, rng.randint(0 if k else 1, nfuncs), max_depth,
-                                 with_resource=(k == 0 or rng.random() < 0.3))
+                                 with_resource=(k == 0 or rng.random() < 0.3), direct_result=direct_result and k == 0)
         blocks += b
         ifaces.append((f"i{k}", names))
         for key, v in st.items():
